@@ -14,6 +14,12 @@ UTF-8: `unsupported`, the replacement algorithm is not modelled).  An IPv4 text 
 `Float_code_lawful`, `Double_code_lawful` are C19's statement (`C19.string_lawful`, `var_lawful`, `addr_lawful`,
 `bits_lawful`) about the translated methods: construct from a representable value, `to_bytes()`, then `from_bytes` out of
 ANY longer buffer at the right offset gives back the value and a size equal to the number of bytes packed.
+
+WHAT THE HYPOTHESES EXCLUDE (audit round 8): on a buffer that is not valid UTF-8 BOTH sides of `String_unpack_eq`,
+`String_from_bytes_eq`, `VarString_unpack_eq`, `VarString_from_bytes_eq` are `.error .unsupported` (Python returns U+FFFD text
+and still sets `_size`): neither the value nor the byte SIZE is proved for such buffers.  Offsets are `Nat`.  No
+operation-sequence simulation for these classes (methods tied one by one); no `_init_eq` / `_pack_eq` for String / Var*
+beyond what the `*_code_lawful` theorems state.
 -/
 namespace PlumVerif.TieTypesC
 open PlumVerif PlumVerif.Py PlumVerif.Types PlumVerif.TieTypes
